@@ -2,10 +2,12 @@ package jsonSubProto
 
 import (
 	"bytes"
+	"fmt"
 	"io"
 
 	erpc "github.com/henrylee2cn/erpc/v6"
 	"github.com/henrylee2cn/erpc/v6/socket"
+	"github.com/henrylee2cn/erpc/v6/xfer"
 )
 
 func init() {
@@ -73,4 +75,20 @@ func VX_C04_WSJsonStatus(args []int) {
 	vxAssume(pf(w).Unpack(got) == nil)
 	vxAssert(!got.StatusOK() && got.Status(true).Code() == 500, "[C04] an error reply's status survives the websocket json sub-protocol")
 	vxCover("c04.wsjson.status")
+}
+
+func init() { vxRegister("VX_C12_WSJsonUnregistered", VX_C12_WSJsonUnregistered) }
+
+// VX_C12_WSJsonUnregistered: a frame of the websocket json sub-protocol that
+// names a transfer filter which is not registered is refused, not passed
+// through with the filter dropped (concrete ids: the frame is text). args: id
+func VX_C12_WSJsonUnregistered(args []int) {
+	_, regErr := xfer.Get(byte(args[0]))
+	vxAssume(regErr != nil)
+	frame := fmt.Sprintf(`{"seq":1,"mtype":1,"serviceMethod":"/a","meta":"","bodyCodec":115,"body":"payload","xferPipe":[%d]}`, args[0])
+	w := &vxMsgBuf{data: []byte(frame)}
+	got := socket.NewMessage(socket.WithNewBody(func(socket.Header) interface{} { return new([]byte) }))
+	err := NewJSONSubProtoFunc()(w).Unpack(got)
+	vxAssert(err != nil, "a pipe naming an unregistered filter is refused rather than passed through (websocket json sub-protocol)")
+	vxCover("c12.wsjson.unregistered")
 }
